@@ -5,6 +5,8 @@ EXTENDS Peg, Json, IOUtils
 Cases == JsonDeserialize(IOEnv.VT_CASES)
 \* case = [id, g, cfg, s, devs |-> Seq(Seq(STRING))]
 Eval(c) == [id |-> c.id, wf |-> WellFormed(c.g),
+            conf |-> IF WellFormed(c.g) THEN ConfPairs(c.g) ELSE {},
+            kinds |-> [j \in 1..Len(c.g.rules) |-> <<c.g.rules[j].name, Kind(c.g, c.g.rules[j].name)>>],
             out |-> [j \in 1..Len(c.devs) |->
                        Outcome([g |-> c.g, cfg |-> c.cfg, D |-> SeqSet(c.devs[j]), s |-> c.s])]]
 VARIABLE i
